@@ -146,9 +146,11 @@ func (lineParser *LineParser) parseMarkup() (*ParseResult, error) {
 	text := builder.String()
 
 	if !characterAttributeIsPresent {
-		match := endOfCharacterMarker.FindStringIndex(lineParser.input)
+		// the implicit "Name: " prefix is looked up in the plain text and measured in characters,
+		// like every other attribute
+		match := endOfCharacterMarker.FindStringIndex(text)
 		if match != nil {
-			characterName := lineParser.input[:match[0]]
+			characterName := text[:match[0]]
 			nameValue := Value{
 				StringValue: characterName,
 				ValueType:   ValueTypeString,
@@ -157,7 +159,7 @@ func (lineParser *LineParser) parseMarkup() (*ParseResult, error) {
 				Name:           characterAttribute,
 				Position:       0,
 				SourcePosition: 0,
-				Length:         match[1],
+				Length:         utf8.RuneCountInString(text[:match[1]]),
 				Properties: map[string]Value{
 					characterAttributeNameProperty: nameValue,
 				},
